@@ -74,9 +74,18 @@ inductive DropTarget
   | unset
 deriving DecidableEq, Repr, Inhabited
 
+/-- The keys `DropRowRange` collects: it iterates from the prefix upwards
+    (`AscendGreaterOrEqual(prefix)`) and stops at the first key that does not start with it. -/
+def rowsToDelete (p : Bytes) (rows : Rows) : List Bytes :=
+  ((rows.filter (fun r => decide (p ≤ r.key))).takeWhile (fun r => Bytes.hasPrefix r.key p)).map (·.key)
+
+/-- … and then deletes them one by one. -/
+def dropPrefixScan (p : Bytes) (rows : Rows) : Rows :=
+  (rowsToDelete p rows).foldl Rows.delete rows
+
 def dropRowRange (t : Table) : DropTarget → Option Table
   | .all => some { t with rows := [] }
-  | .pfx p => some { t with rows := t.rows.filter (!Bytes.hasPrefix ·.key p) }
+  | .pfx p => some { t with rows := dropPrefixScan p t.rows }
   | .unset => none
 
 /-! ### Garbage collection -/
